@@ -18,6 +18,12 @@ CHECKS = {
  "C09": dict(cat="model_checking", ref="§5/C09",
    text="Same scheduler model restricted to mutation operations: R1_Serial (a root has started resolvers only when all earlier roots are complete) checked by TLC over all schedules x failure placements x 6 flag sets; every schedule replayed: at every idle point at most one root has resolvers in flight, roots are entered in document order, nullable root failure does not stop later roots, non-null root failure nulls data, response keys in document order.",
    technique="TLA+ scheduler model (Sched.tla, serial executor) + TLC + schedule replay on a controlled asyncio loop"),
+ "C15": dict(cat="model_checking", ref="§5/C15",
+   text="MC_multi.tla: 2-3 requests over one generated document (different operations, variables, resolver data incl. failures) in flight on one engine; TLC explores every interleaving of all their resolver completions and checks each answer equals the solo big-step answer (R1_Multi); every interleaving is driven through ONE real engine with all requests suspended on harness gates; each response, context identity per call, and the same requests re-run alone afterwards are compared with the prediction.",
+   technique="TLA+ multi-request scheduler model + TLC exhaustive interleavings + replay on a controlled asyncio loop"),
+ "C16": dict(cat="model_checking", ref="§5/C16",
+   text="Engine.tla models the parse/validate cache as explicit LRU state; TLC checks coherence (cache[q] = PV(q)), boundedness and transparency (resp = Solo(req)) over every request sequence of length 4 over a pool of 7 (thorough: 12) requests (valid/invalid/broken documents, same text with other operation name or variables, str/bytes) for capacities 0, 1, 2, unbounded; every sequence is sent to real engines configured with cache off / lru_cache(1) / lru_cache(2) / default / a custom decorator, each response compared with the spec's prediction and with a fresh uncached engine; hit/eviction predictions are compared as coverage only.",
+   technique="TLA+ cache/history model (Engine.tla) + TLC exhaustive request sequences + replay into engines with each cache configuration"),
 }
 NOT_YET = {}
 
